@@ -629,6 +629,12 @@ def uses_global_rng(cfg: Dict) -> bool:
     return False
 
 
+def draws_at_build(cfg: Dict) -> bool:
+    """does `from_config` of this scenario draw from a process-global generator? Every scripted agent does (periodic / TAP agents draw their
+    start step and node; a probabilistic agent draws the seed of its PRIVATE generator from numpy's global one)"""
+    return any(a.get("type") != "proxy-agent" for a in cfg.get("agents", []))
+
+
 def nmne_key(cfg: Dict) -> str:
     from primaite.simulator.network.nmne import NMNEConfig
     c = NMNEConfig(**cfg.get("simulation", {}).get("network", {}).get("nmne_config", {}))
@@ -643,9 +649,9 @@ def model_lines(cfg_a: Dict, cfg_b: Dict, schedule: List[Tuple], ids: Dict[str, 
         return ids.setdefault(nmne_key(cfg), len(ids))
     inst = {"A": 0, "B": 1, "C": 2}
     lines = ["reset",
-             f"new 0 7 {nid(cfg_a)} 0 {int(uses_global_rng(cfg_a))} 0",
-             f"new 1 9 {nid(cfg_b)} 0 {int(uses_global_rng(cfg_b))} 0",
-             f"new 2 9 {nid(cfg_b)} 0 {int(uses_global_rng(cfg_b))} 0"]
+             f"new 0 7 {nid(cfg_a)} 0 {int(uses_global_rng(cfg_a))} 0 0 {int(draws_at_build(cfg_a))}",
+             f"new 1 9 {nid(cfg_b)} 0 {int(uses_global_rng(cfg_b))} 0 0 {int(draws_at_build(cfg_b))}",
+             f"new 2 9 {nid(cfg_b)} 0 {int(uses_global_rng(cfg_b))} 0 0 {int(draws_at_build(cfg_b))}"]
     idx = [-1, -1, -1, -1]
     k = 0
     for ent in schedule:
